@@ -62,6 +62,10 @@ inductive RPc | run (sc : List UAct) | send (v : Nat) (sc : List UAct) | cdrain 
 inductive CPc | sel | cancelEnter | cdrain | drainOut (p : PVal) | defer (r : Res) | check (r : Res) | done (r : Res)
   deriving DecidableEq, Repr
 
+/-- who runs `cancel`'s function under the sync.Once (ghost). -/
+inductive Canceller | mapper (i : Nat) | reducer | caller
+  deriving DecidableEq, Repr
+
 structure St where
   gpc : GPc := .run
   gNext : Nat := 0
@@ -89,6 +93,7 @@ structure St where
   drained : List Nat := []      -- values received by the reducer goroutine's deferred drain
   wSnap : Option Bool := none   -- at the reducer's FIRST Write (its guard): was an error recorded / the context over?
   eSnap : Option Bool := none   -- at the end of the reducer function: was an error recorded?
+  onceBy : Option Canceller := none   -- who entered cancel's sync.Once
 
 def init (c : Cfg) : St := { rpc := .run c.rscript, ctxDone := c.ctxPre }
 
@@ -158,7 +163,7 @@ def stepMapper (c : Cfg) (s : St) (i : Nat) : Option St :=
     if s.ctxDone || s.fin then some { s with mp := upd s.mp i (.run sc) }
     else some { s with mp := upd s.mp i (.send v sc) }
   | .run (.cancel e :: sc) =>
-    if s.once = 0 then some { s with once := 1, retErr := some (cancelErr e), mp := upd s.mp i (.cdrain sc) }
+    if s.once = 0 then some { s with once := 1, retErr := some (cancelErr e), mp := upd s.mp i (.cdrain sc), onceBy := some (.mapper i) }
     else if s.once = 1 then none
     else some { s with mp := upd s.mp i (.run sc) }
   | .run (.panic :: _) => some { s with mp := upd s.mp i .recovered }
@@ -199,7 +204,7 @@ def stepRed (c : Cfg) (s : St) : Option St :=
     if s.ctxDone || s.fin then some { s with rpc := .run sc, wSnap := snapOnce s.wSnap (s.retErr.isSome || s.ctxDone) }
     else some { s with rpc := .send v sc, wSnap := snapOnce s.wSnap (s.retErr.isSome || s.ctxDone) }
   | .run (.cancel e :: sc) =>
-    if s.once = 0 then some { s with once := 1, retErr := some (cancelErr e), rpc := .cdrain sc }
+    if s.once = 0 then some { s with once := 1, retErr := some (cancelErr e), rpc := .cdrain sc, onceBy := some .reducer }
     else if s.once = 1 then none
     else some { s with rpc := .run sc }
   | .run (.panic :: _) => some { s with rpc := .drain (some .reducer), eSnap := snapOnce s.eSnap s.retErr.isSome }
@@ -238,7 +243,7 @@ def stepCaller (c : Cfg) (s : St) : Option St :=
   match s.cpc with
   | .sel => none                       -- the three select cases are separate actors
   | .cancelEnter =>
-    if s.once = 0 then some { s with once := 1, retErr := some .deadline, cpc := .cdrain }
+    if s.once = 0 then some { s with once := 1, retErr := some .deadline, cpc := .cdrain, onceBy := some .caller }
     else if s.once = 1 then none
     else some { s with cpc := .defer (.err .deadline) }
   | .cdrain =>
